@@ -1469,6 +1469,294 @@ fn run_kind6(rt: &tokio::runtime::Runtime, p: &[u64]) -> Option<(Vec<u64>, Vec<u
     Some((case, trace))
 }
 
+// ------------------------------------------------------------------ kinds 7, 8: other callers
+// Compiled only into harness_c01x (cargo features quic + webrtc of litep2p), run by
+// tools/c01_extra_streams.sh.
+
+#[cfg(feature = "extra")]
+mod extra {
+    use super::*;
+    use litep2p::{
+        crypto::{
+            verif_tls::{verif_check_client_cert, verif_check_server_cert, verif_generate_with, VERIF_P2P_SIGNING_PREFIX},
+            verif_webrtc_noise::NoiseContext,
+        },
+        transport::webrtc::verif::verif_noise_prologue,
+    };
+
+    fn tls_class(e: &str) -> u64 {
+        if e.contains("Wrong peer ID") {
+            8
+        } else if e.contains("InvalidCertificateEncoding") {
+            13
+        } else if e.contains("ExtensionValueInvalid") {
+            14
+        } else if e.contains("UnknownIssuer") {
+            5
+        } else {
+            10
+        }
+    }
+
+    /// kind 7: `7 3 seed forgery variant`. A certificate is generated by litep2p's own code path
+    /// (rcgen, fresh P-256 certificate key) with a libp2p extension chosen here, and given to the
+    /// real verifier as a server certificate (with an expected peer) and as a client certificate.
+    pub fn run_kind7(p: &[u64]) -> Option<(Vec<u64>, Vec<u64>)> {
+        if p.len() != 3 || p[1] > 12 {
+            return None;
+        }
+        let (seed, fk, variant) = (p[0], p[1], p[2]);
+        let mut rng = Rng::new(seed ^ 0xC01_0007);
+        let ka = keypair_from(&mut rng);
+        let kb = keypair_from(&mut rng);
+        let pk_a = ka.public().to_bytes().to_vec();
+        let prefix = VERIF_P2P_SIGNING_PREFIX.to_vec();
+        // a SubjectPublicKeyInfo of ANOTHER certificate key (for "signature made for another key")
+        let (_, other_spki) = verif_generate_with(|_| Vec::new()).ok()?;
+        let mut ext_desc: Vec<u64> = Vec::new();
+        let mut keys: Vec<Vec<u8>> = vec![pk_a.clone(), kb.public().to_bytes().to_vec()];
+        let mut sigs: Vec<Vec<u8>> = Vec::new();
+        let mut inter = 0usize;
+        let mut r2 = rng.fork();
+        let (der, spki) = verif_generate_with(|spki| {
+            let good_msg = [&prefix[..], spki].concat();
+            let good_sig = ka.sign(&good_msg);
+            let good_blob = key_blob(1, &pk_a);
+            sigs.push(good_sig.clone());
+            let one = |k: Vec<u8>, s: Vec<u8>, d: &mut Vec<u64>| {
+                d.push(1);
+                el(d, &k);
+                el(d, &s);
+                vec![(k, s, true, None)]
+            };
+            match fk {
+                0 => one(good_blob, good_sig, &mut ext_desc),
+                1 => {
+                    ext_desc.push(0);
+                    Vec::new()
+                }
+                2 => {
+                    let s = kb.sign(&good_msg);
+                    sigs.push(s.clone());
+                    one(good_blob, s, &mut ext_desc)
+                }
+                3 => {
+                    let s = ka.sign(&[&prefix[..], &other_spki[..]].concat());
+                    sigs.push(s.clone());
+                    one(good_blob, s, &mut ext_desc)
+                }
+                4 => {
+                    let msg: Vec<u8> = match variant % 4 {
+                        0 => spki.to_vec(),
+                        1 => [VERIF_STATIC_KEY_DOMAIN.as_bytes(), spki].concat(),
+                        2 => [&prefix[..prefix.len() - 1], spki].concat(),
+                        _ => [&prefix[..], &spki[..spki.len() - 1]].concat(),
+                    };
+                    let s = ka.sign(&msg);
+                    sigs.push(s.clone());
+                    one(good_blob, s, &mut ext_desc)
+                }
+                5 => {
+                    // non-canonical encodings of the key: the id must still be the key's
+                    let blob = match variant % 4 {
+                        0 => [ld(2, &pk_a), field_key(1, 0), varint(1)].concat(),
+                        1 => [good_blob.clone(), unknown_field(&mut r2, &[1, 2], 2)].concat(),
+                        2 => [varint_pad(8, 1), varint_pad(1, 2), varint_pad(18, 1), varint_pad(32, 3), pk_a.clone()].concat(),
+                        _ => key_blob((1 << 32) + 1, &pk_a),
+                    };
+                    one(blob, good_sig, &mut ext_desc)
+                }
+                6 => {
+                    let tys = [0u64, 2, 3, 4, 1 << 32];
+                    one(key_blob(tys[(variant % 5) as usize], &pk_a), good_sig, &mut ext_desc)
+                }
+                7 => {
+                    let n = [0usize, 31, 33, 64][(variant % 4) as usize];
+                    let mut d = pk_a.clone();
+                    d.resize(n, 9);
+                    one(key_blob(1, &d), good_sig, &mut ext_desc)
+                }
+                8 => {
+                    ext_desc.push(2);
+                    let raw = match variant % 3 {
+                        0 => vec![0x30, 0x03, 0x04, 0x01, 0x00],
+                        1 => rand_bytes(&mut r2, 20),
+                        _ => Vec::new(),
+                    };
+                    vec![(Vec::new(), Vec::new(), true, Some(raw))]
+                }
+                9 => {
+                    ext_desc.push(3);
+                    vec![(good_blob.clone(), good_sig.clone(), true, None), (good_blob, good_sig, false, None)]
+                }
+                10 => {
+                    inter = 1 + (variant % 2) as usize;
+                    one(good_blob, good_sig, &mut ext_desc)
+                }
+                11 => {
+                    let k = unhex(SMALL_ORDER[(variant % 8) as usize]);
+                    let mut s = unhex(SMALL_ORDER[0]);
+                    s.extend([0u8; 32]);
+                    keys.push(k.clone());
+                    sigs.push(s.clone());
+                    one(key_blob(1, &k), s, &mut ext_desc)
+                }
+                _ => {
+                    let mut s = good_sig.clone();
+                    let i = r2.below(64) as usize;
+                    s[i] ^= 1 << r2.below(8);
+                    sigs.push(s.clone());
+                    one(good_blob, s, &mut ext_desc)
+                }
+            }
+        })
+        .ok()?;
+        let expected = match variant % 3 {
+            0 => None,
+            1 => id_of_key_bytes(&pk_a),
+            _ => id_of_key_bytes(&kb.public().to_bytes()),
+        };
+        let rs = verif_check_server_cert(&der, inter, expected).map_err(|e| tls_class(&e));
+        let rc = verif_check_client_cert(&der, inter).map_err(|e| tls_class(&e));
+        let mut trace = vec![7];
+        put_result(&mut trace, &rs);
+        put_result(&mut trace, &rc);
+        trace.push(0);
+        // case
+        let mut case = vec![7, 3];
+        case.extend_from_slice(p);
+        case.extend(ext_desc.iter().copied());
+        el(&mut case, &spki);
+        case.push(inter as u64);
+        match expected {
+            None => case.push(0),
+            Some(id) => {
+                case.push(1);
+                el(&mut case, &id.to_bytes());
+            }
+        }
+        // oracle tables over the extension's key data and signature
+        if ext_desc.first() == Some(&1) {
+            let n = ext_desc[1] as usize;
+            let blob: Vec<u8> = ext_desc[2..2 + n].iter().map(|x| *x as u8).collect();
+            if let Some((_, data)) = verif_decode_key_message(&blob) {
+                keys.push(data);
+            }
+        }
+        keys.sort();
+        keys.dedup();
+        sigs.sort();
+        sigs.dedup();
+        let msg = [&prefix[..], &spki[..]].concat();
+        let keys32: Vec<&Vec<u8>> = keys.iter().filter(|k| k.len() == 32).collect();
+        case.push(keys32.len() as u64);
+        for k in keys32.iter() {
+            el(&mut case, k);
+            case.push(on_curve(k) as u64);
+        }
+        let mut entries = Vec::new();
+        let mut n = 0u64;
+        for k in keys32.iter().filter(|k| on_curve(k)) {
+            for s in sigs.iter() {
+                el(&mut entries, k);
+                el(&mut entries, &msg);
+                el(&mut entries, s);
+                entries.push(ed_verify(k, &msg, s) as u64);
+                n += 1;
+            }
+        }
+        case.push(n);
+        case.extend(entries);
+        Some((case, trace))
+    }
+
+    /// kind 8: `8 5 seed forgery variant fpmode`. litep2p's WebRTC Noise path on byte vectors:
+    /// `NoiseContext::with_prologue` (initiator) with the prologue computed by litep2p from its
+    /// two fingerprints; the remote is a snow responder whose prologue is computed from ITS view
+    /// of the fingerprints (fpmode 0: the same pair; others: a differing pair).
+    pub fn run_kind8(rt: &tokio::runtime::Runtime, p: &[u64]) -> Option<(Vec<u64>, Vec<u64>)> {
+        if p.len() != 4 || p[1] == 0 || p[1] >= NKINDS || p[3] > 5 {
+            return None;
+        }
+        let (seed, fkind, variant, fpmode) = (p[0], p[1], p[2], p[3]);
+        let mut rng = Rng::new(seed ^ 0xC01_0008);
+        let victim = keypair_from(&mut rng);
+        let ka = keypair_from(&mut rng);
+        let kb = keypair_from(&mut rng);
+        let local_fp = rand_bytes(&mut rng, 32);
+        let remote_fp = rand_bytes(&mut rng, 32);
+        let pro_i = verif_noise_prologue(local_fp.clone(), remote_fp.clone());
+        // the remote's view: its local fingerprint is our remote one
+        let (mut their_local, mut their_remote) = (remote_fp.clone(), local_fp.clone());
+        match fpmode {
+            0 => {}
+            1 => their_local[rng.below(32) as usize] ^= 1 << rng.below(8),
+            2 => their_remote[rng.below(32) as usize] ^= 1 << rng.below(8),
+            3 => std::mem::swap(&mut their_local, &mut their_remote),
+            4 => their_remote = rand_bytes(&mut rng, 32),
+            _ => their_local.truncate(31),
+        }
+        // the remote (client) computes "libp2p-webrtc-noise:" ++ client fp ++ server fp
+        let pro_r = [b"libp2p-webrtc-noise:".as_slice(), &their_local, &their_remote].concat();
+        let replay = if fkind == 21 { honest_pair(rt, &mut rng, variant % 2, 0).0 } else { Vec::new() };
+        let builder = snow_builder();
+        let kp = builder.generate_keypair().ok()?;
+        let x = Forge { rs: &kp.public, a: &ka, b: &kb, victim_pk: victim.public().to_bytes(), rogue_is_listener: true, replay };
+        let (payload, ks, ss) = forge(fkind, variant, &mut rng, &x);
+        if payload.len() > 60_000 {
+            return None;
+        }
+        let mut responder = builder.local_private_key(&kp.private).prologue(&pro_r).build_responder().ok()?;
+        let mut ctx = NoiseContext::with_prologue(&victim, pro_i.clone()).ok()?;
+        let m1 = ctx.first_message(Role::Dialer).ok()?;
+        let mut buf = vec![0u8; 70_000];
+        let mut out = vec![0u8; 70_000];
+        responder.read_message(&m1[2..], &mut buf).ok()?;
+        let n = responder.write_message(&payload, &mut out).ok()?;
+        let reply = framed(&out[..n]);
+        let res = ctx.get_remote_peer_id(&reply).map_err(|e| class(&e));
+        let mut trace = vec![8];
+        put_result(&mut trace, &res);
+        trace.push(0);
+        let mut case = vec![8, 4];
+        case.extend_from_slice(p);
+        // finish_case appends payload, static key, tables; the prologues go in between
+        let (c2, t2) = finish_case(Vec::new(), trace, &payload, &kp.public, None, ks, ss, false);
+        // c2 = L payload, L rs, tables...: splice the prologues after the first two lists
+        let l1 = 1 + c2[0] as usize;
+        let l2 = 1 + c2[l1] as usize;
+        case.extend_from_slice(&c2[..l1 + l2]);
+        el(&mut case, &pro_i);
+        el(&mut case, &pro_r);
+        case.extend_from_slice(&c2[l1 + l2..]);
+        Some((case, t2))
+    }
+
+    pub fn generate(rt: &tokio::runtime::Runtime, rng: &mut Rng, n: u64, run: &mut dyn FnMut(&[u64])) {
+        let _ = rt;
+        for fk in 0..=12u64 {
+            for v in 0..12u64 {
+                run(&[7, 3, 5000 + fk * 16 + v, fk, v]);
+            }
+        }
+        for fk in 1..NKINDS {
+            for fp in 0..6u64 {
+                run(&[8, 4, 6000 + fk * 8 + fp, fk, fp + fk, fp]);
+            }
+            run(&[8, 4, 6500 + fk, fk, fk, 0]);
+        }
+        for i in 0..n {
+            let seed = rng.next() >> 16;
+            if i % 2 == 0 {
+                run(&[7, 3, seed, rng.below(13), rng.below(1 << 12)]);
+            } else {
+                let fk = if rng.chance(40) { 1 } else { 1 + rng.below(NKINDS - 1) };
+                run(&[8, 4, seed, fk, rng.below(1 << 12), if rng.chance(50) { 0 } else { rng.below(6) }]);
+            }
+        }
+    }
+}
+
 // ------------------------------------------------------------------ driver
 
 fn run_case(rt: &tokio::runtime::Runtime, c: &[u64]) -> Option<(Vec<u64>, Vec<u64>)> {
@@ -1480,6 +1768,10 @@ fn run_case(rt: &tokio::runtime::Runtime, c: &[u64]) -> Option<(Vec<u64>, Vec<u6
         2 => run_kind2(rt, p),
         4 => run_kind4(rt, p),
         6 => run_kind6(rt, p),
+        #[cfg(feature = "extra")]
+        7 => extra::run_kind7(p),
+        #[cfg(feature = "extra")]
+        8 => extra::run_kind8(rt, p),
         _ => None,
     }
 }
@@ -1524,7 +1816,13 @@ fn gen_case(rng: &mut Rng, i: u64, thorough: bool) -> Vec<u64> {
     } else if roll < 12 {
         // honest sessions under random fragmentation, half of them with early data
         let frag = rng.pick(&[0u64, 1, 2, 3, 7, 16, 31, 33, 100, 201, 1000]);
-        let early = if rng.chance(50) { 0 } else { rng.pick(&[1u64, 2, 17, 1000, 65_519, 65_520, 100_000]) };
+        let early = if rng.chance(50) {
+            0
+        } else if rng.chance(4) {
+            rng.pick(&[65_519u64, 65_520, 100_000])
+        } else {
+            rng.pick(&[1u64, 2, 17, 100, 1000, 4096])
+        };
         vec![2, 7, seed, 0, 0, 0, 0, frag, early]
     } else if roll < 30 {
         // random tampering beyond the exhaustive sweep
@@ -1582,6 +1880,12 @@ pub fn main(args: &Args) {
         run(c, &mut out);
     }
     if args.str("replay").is_some() {
+        return;
+    }
+    #[cfg(feature = "extra")]
+    {
+        extra::generate(&rt, &mut rng, ncases, &mut |c| run(c, &mut out));
+        let _ = thorough;
         return;
     }
     // a few of each kind first (the in-Coq sample takes the head of the file)
